@@ -6,7 +6,8 @@ from ..xgraph import XGraph, resolve_target
 from .common import CONTRACTS, entry, msg_enum, variant_env, stored, where, arm_handler
 from .hub_common import HUBCFG, STATE
 from .msgs import wasm_execute, vec_elems, coin_parts, is_zero_fact
-from .C17 import push_sequences, zero_send_sites, lab_short
+from .C17 import zero_send_sites, lab_short, swap_order
+from .msgs import push_sequences, response_sequences
 
 DISP = stored(HUBCFG, "reward_dispatcher_contract")
 
@@ -22,16 +23,47 @@ def run(prog, world, sem, rep):
              "serialised variant tag is accepted and required fields are present (extra fields only where the receiver ignores unknown fields)", 7)
     rep.rule("C19.e", "the reward-delivery transaction contains no zero-coin transfer (shared with C17.a; the three dispatcher sites are known findings)", 5)
 
+    rep.rule("C19.f", "the dispatcher's swap step can be paid for: conversions precede the rebalancing swap that spends their proceeds (shared with "
+             "C17.i); a reversed order makes the bank reject the funds and reverts the whole UpdateGlobalIndex transaction", 1)
+    dex = entry(prog, "dispatcher")
+    okord, dord, h2 = swap_order(world, sem, explore(sem, dex, variant_env(prog, dex, "SwapToRewardDenom")))
+    rep.ob("C19.f", "conversions precede the rebalancing swap", okord, dord, where(h2.body))
+
+    rep.rule("C19.g", "the delivery steps cannot refuse: reward::UpdateGlobalIndex and dispatcher::DispatchRewards have no explicit error exit other than "
+             "the rejection of an unauthorised sender (any other refusal reverts the whole hub transaction, withdrawals and re-bond included)", 2)
+    for (cn, vn) in (("reward", "UpdateGlobalIndex"), ("dispatcher", "DispatchRewards")):
+        cex = entry(prog, cn)
+        cvs = explore(sem, cex, variant_env(prog, cex, vn))
+
+        def unauth(f, resolve):
+            if f[0] == "cmp" and f[1] == "Ne":
+                return ("sender",) in (sem.label(resolve(f[2])), sem.label(resolve(f[3])))
+            return False
+        bad = []
+        n_err = 0
+        for cv in cvs:
+            if cv.body.kind == "closure":
+                continue
+            for (bb, idx, kind, x) in sem.ret_sites(cv.be):
+                if kind == "err" and x.op == "adt" and bb in cv.blocks:
+                    n_err += 1
+                    g, d0 = site_guarded(sem, cv, bb, unauth)
+                    if not g:
+                        st = cv.body.blocks[bb].stmts
+                        bad.append("%s line %d" % (cv.body.path.split("::")[-1], st[idx].line if idx < len(st) else cv.body.blocks[bb].term.line))
+        rep.ob("C19.g", "%s::%s refuses only unauthorised senders" % (cn, vn), n_err > 0 and not bad,
+               "explicit error exit(s) not tied to the sender check: %s (a refusal here reverts the hub's whole UpdateGlobalIndex transaction)" % bad if bad or not n_err
+               else "%d explicit refusal(s), all behind sender != principal" % n_err, where(cex), key="C19.g | %s::%s" % (cn, vn))
+
     ex = entry(prog, "hub")
     vs = explore(sem, ex, variant_env(prog, ex, "UpdateGlobalIndex"))
     h = arm_handler(sem, vs)
     # ---------------------------------------------------------------- C19.a
     ret = world.ret_expr(h.body)
-    lists = find(ret, lambda x: x.op == "call" and x.info == "cosmwasm_std::Response::add_messages")
     ok = False
     det = "anchor-lost: response message list"
-    if lists:
-        seqs = push_sequences(world, lists[0].args[1])
+    seqs = [s for alt in world._ok_alts(ret, "ok", 0, False) for s in response_sequences(world, alt)]
+    if seqs:
         kinds = []
         for s in seqs:
             ks = []
